@@ -40,7 +40,7 @@ func vSlotJSON(kp int, s string) string {
 	case "items":
 		return `,"items":` + s
 	case "tuple":
-		return `,"items":[` + s + `]`
+		return `,"items":[` + s + `,{"description":"second element of the tuple"}]`
 	case "allOf", "anyOf", "oneOf":
 		return `,"` + vKwPos[kp] + `":[` + s + `]`
 	case "not":
@@ -319,6 +319,10 @@ func vWorldOps(faulty bool) *vWorld {
 	if bare == "" {
 		bare = "#/parameters/P1"
 	}
+	plv := "#/parameters/P2" // the path-level parameter reference
+	if faulty && vChoose(2, "PLV") == 1 {
+		plv = "#/parameters/Nope"
+	}
 	ops := ""
 	for i, v := range vVerbs {
 		if i > 0 {
@@ -328,7 +332,7 @@ func vWorldOps(faulty bool) *vWorld {
 	}
 	w := &vWorld{root: vURoot, docs: map[string]string{}, fail: map[string]bool{}}
 	w.docs[vURoot] = `{"swagger":"2.0","info":{"title":"t","version":"1"},` +
-		`"paths":{"/all":{"parameters":[{"$ref":"#/parameters/P2"}],` + ops + `},"/bare":{"post":{"operationId":"bare","parameters":[{"$ref":"` + bare + `"},{"name":"b","in":"body","schema":{"$ref":"#/definitions/A"}}]}}},` +
+		`"paths":{"/all":{"parameters":[{"$ref":"` + plv + `"}],` + ops + `},"/bare":{"post":{"operationId":"bare","parameters":[{"$ref":"` + bare + `"},{"name":"b","in":"body","schema":{"$ref":"#/definitions/A"}}]}}},` +
 		`"definitions":{"A":{"description":"la","properties":{"b":{"$ref":"#/definitions/B"}}},"B":{"description":"lb"}},` +
 		`"parameters":{"P1":{"name":"p1","in":"body","schema":{"$ref":"#/definitions/B"}},"P2":{"name":"p2","in":"query","type":"string"}},` +
 		`"responses":{"R1":{"description":"r1","schema":{"$ref":"#/definitions/A"}}}}`
